@@ -6,13 +6,16 @@
                              (a helper that would panic answers `panic` in its slot)
     Y <cps>               →  getYmdTime of the string            | panic
     F <cps pat> <t>       →  code points of format(pat, t)
-    P <cps pat> <now> <cps input> → parsed millisecond instant   | err | range (year outside 1970..2200: not modelled)
+    P <cps pat> <now> <cps input> → parsed millisecond instant   | err | range (year argument of time.Date outside 1970..2200: UnixNano overflow not modelled)
+                             (fresh object; signed field texts as strconv.Atoi reads them)
+    Q <cps pat> <now1> <cps input1> <now2> <cps input2> …  → r1;r2;…  the same for successive Parse calls on ONE object
     T <cps pat> <t>       →  Spec: t truncated to the fields of pat
 
   strings travel as comma separated code points, the empty string as `-`.
 -/
 import Golib.Cal.Helper
 import Golib.Cal.DateFormat
+import Golib.Cal.DateFormatObj
 import Driver.Common
 
 open Cal Drv
@@ -24,6 +27,15 @@ def optS (o : Option (List Char)) : String :=
   match o with
   | some cs => String.ofList cs
   | none => "panic"
+
+/-- result of one Parse call; `range` when the normalised year leaves 1970..2200 -/
+def showRes (r : PStateZ × Option Int) : String :=
+  match r.2 with
+  | none => "err"
+  | some v =>
+    let f := r.1.fields
+    let y := f.y + (f.m - 1) / 12
+    if y < 1970 ∨ y > 2200 then "range" else toString v
 
 def answer (line : String) : String :=
   match line.splitOn " " with
@@ -52,10 +64,22 @@ def answer (line : String) : String :=
   | ["P", pat, now, inp] =>
     match parseCps pat, parseNat now, parseCps inp with
     | some pat, some now, some inp =>
-      match parseFields pat (fieldsOf now) inp with
-      | some f => if f.y < 1970 ∨ f.y > 2200 then "range" else toString (dateToMs f)
-      | none => "err"
+      showRes (parseObj {} pat (fieldsOf now) inp)
     | _, _, _ => "bad-op"
+  | "Q" :: pat :: calls =>
+    match parseCps pat with
+    | some pat =>
+      let rec go (st : PStateZ) (cs : List String) (acc : List String) : List String :=
+        match cs with
+        | now :: inp :: rest =>
+          match parseNat now, parseCps inp with
+          | some now, some inp =>
+            let r := parseObj st pat (fieldsOf now) inp
+            go r.1 rest (showRes r :: acc)
+          | _, _ => ("bad-op" :: acc).reverse
+        | _ => acc.reverse
+      ";".intercalate (go {} calls [])
+    | none => "bad-op"
   | ["T", pat, t] =>
     match parseCps pat, parseNat t with
     | some pat, some t => toString (truncTo pat t)
